@@ -66,8 +66,20 @@ def d1_rounding(ctx):
     fi = repo.fn(CLS + "._ind2save")
     du = DefUse(fi.node)
     casts = int_casts(fi.node)
+    # implicit narrowing: float expressions stored into an array allocated with an integer dtype
+    int_arrays = {}
+    for d in du.defs:
+        if d.kind == "assign" and isinstance(d.value, ast.Call) and call_name(d.value) in ("empty", "zeros", "ones", "full", "empty_like", "zeros_like"):
+            dt = kwarg(d.value, "dtype") or (d.value.args[1] if len(d.value.args) > 1 and call_name(d.value) != "full" else None)
+            if dt is not None and any(t in src(dt) for t in INT_TYPES) and "float" not in src(dt):
+                int_arrays[d.var] = d
+    for st in walk_function(fi.node):
+        if isinstance(st, ast.Assign) and isinstance(st.targets[0], ast.Subscript) and loc_name(st.targets[0].value) in int_arrays:
+            casts.append((st, st.value))
+        elif isinstance(st, ast.AugAssign) and isinstance(st.target, ast.Subscript) and loc_name(st.target.value) in int_arrays:
+            casts.append((st, st.value))
     if not casts:
-        raise AnchorMissing("_ind2save: integer cast not found")
+        raise AnchorMissing("_ind2save: no conversion to an integer sample type found (neither astype/np.int16 nor a store into an integer array)")
     for c, operand in casts:
         v = expand_name(du, operand, c)
         bad = _has_unrounded_division(v)
@@ -76,15 +88,35 @@ def d1_rounding(ctx):
                   "lands just below the integer come back 1 LSB low", key="cast")
         # divisor is the reader's conversion vector for this etype
         divs = [b for b in find(v, ast.BinOp) if isinstance(b.op, ast.Div)]
-        roots = [chain_root(b.right)[0] for b in divs]
+
+        def _root(e):
+            r = chain_root(e)[0]
+            if r is not None and "." not in r:
+                # a local: follow it to what it was assigned from
+                base = e
+                while isinstance(base, ast.Subscript):
+                    base = base.value
+                ex = expand_name(du, base, c)
+                if ex is not base:
+                    return chain_root(ex)[0]
+            return r
+        roots = [_root(b.right) for b in divs]
         okd = bool(divs) and all(r in ("self.sr.channel_conversion_sample2v", "self.sr.sample2volts") for r in roots)
         ctx.check(okd, fi, c, f"divisors rooted at {roots}", "volts are divided by the very vector the reader multiplied with",
                   f"volts are converted back with {roots}, not the reader's channel_conversion_sample2v", key="divisor")
         keys = set()
         for b in divs:
-            for s in find(b.right, ast.Subscript):
-                if loc_name(s.value) == "self.sr.channel_conversion_sample2v":
-                    keys.add(src(s.slice))
+            rhs = [b.right]
+            base = b.right
+            while isinstance(base, ast.Subscript):
+                base = base.value
+            ex = expand_name(du, base, c)
+            if ex is not base:
+                rhs.append(ex)
+            for r_ in rhs:
+                for s in find(r_, ast.Subscript):
+                    if loc_name(s.value) == "self.sr.channel_conversion_sample2v":
+                        keys.add(src(s.slice))
         ctx.check(keys <= {"etype"} and len(keys) <= 1, fi, c, f"conversion key {sorted(keys)}", "conversion vector selected by the stream type being written",
                   f"conversion vector keyed by {sorted(keys)}", key="divisor-key")
 
@@ -137,11 +169,20 @@ def tiling(ctx, process_q, rule, want_etypes):
         af, bf = cases["first"]
         ctx.check(af == Poly.const(0) and bf == bi, fi2, c, f"[{k}] first window keeps [{af}, {bf})", "the first window is kept from its first sample",
                   f"[{k}] first window keeps [{af}, {bf}): the start of the recording is dropped or the seam moves", key=f"tiling:{k}:first")
+        # the last window holds L = ns - iw*stride raw samples, i.e. ceil(L/dec) samples after decimation: its kept range must reach at least
+        # that far (an end beyond it is clipped by slicing).  Accepted ends: window/dec, ceil(L/dec), or L/dec when dec == 1.
+        wgn = next((p_ for p_ in fi2.params if p_ not in ("self", "chunk", "chunk_sync", "ratio", "etype")), "wg")
+        evl = Evaluator(env={"DEC": dec, "NSL": Poly.sym(f"{wgn}.ns") - Poly.sym(f"{wgn}.iw") * (Poly.sym(f"{wgn}.nswin") - Poly.sym(f"{wgn}.overlap"))}, facts=facts.copy())
+        evl.facts.int_syms |= {f"{wgn}.ns", f"{wgn}.iw", f"{wgn}.nswin", f"{wgn}.overlap"}
+        ends_ok = [wr, evl.ev(ast.parse("math.ceil(NSL / DEC)", mode="eval").body)]
         al, bl = cases["last"]
-        ctx.check(al == ai and bl == wr, fi2, c, f"[{k}] last window keeps [{al}, {bl})", "the last window is kept to its end",
-                  f"[{k}] last window keeps [{al}, {bl}) instead of [{ai}, {wr}): the end of the recording is dropped", key=f"tiling:{k}:last")
+        ctx.check(al == ai and any(bl == e_ for e_ in ends_ok), fi2, c, f"[{k}] last window keeps [{al}, {bl})", "the last window is kept to its end",
+                  f"[{k}] last window keeps [{al}, {bl}) - it must reach the end of the window's {'decimated ' if dec != Poly.const(1) else ''}samples "
+                  f"({wr}, or ceil(last window length / {dec})): the end of the recording is dropped"
+                  + (" (int() of the quotient floors: the final partial group of samples is lost whenever the length is not a multiple of the ratio)" if "int(" in bl.canon() or "floor" in bl.canon() else ""),
+                  key=f"tiling:{k}:last")
         a1, b1 = cases["single"]
-        ctx.check(a1 == Poly.const(0) and b1 == wr, fi2, c, f"[{k}] single window keeps [{a1}, {b1})", "a recording shorter than one window is kept whole",
+        ctx.check(a1 == Poly.const(0) and any(b1 == e_ for e_ in ends_ok), fi2, c, f"[{k}] single window keeps [{a1}, {b1})", "a recording shorter than one window is kept whole",
                   f"[{k}] single window keeps [{a1}, {b1})", key=f"tiling:{k}:single")
         # grid: stride, window and margins are multiples of the ratio
         fx = facts.copy()
@@ -375,8 +416,8 @@ def d5_meta_keys(ctx):
 
 
 def run(ctx):
-    d1_rounding(ctx)
-    d2_tiling(ctx)
-    d3_columns(ctx)
-    d4_scatter(ctx)
-    d5_meta_keys(ctx)
+    ctx.run(d1_rounding)
+    ctx.run(d2_tiling)
+    ctx.run(d3_columns)
+    ctx.run(d4_scatter)
+    ctx.run(d5_meta_keys)
